@@ -115,7 +115,7 @@ pub fn number_to_string(n: f64) -> String {
     // Check if it's an integer that can be represented exactly
     if math::trunc(n) == n && abs_n < 1e21 {
         // Format as integer (no decimal point)
-        return format!("{:.0}", n);
+        return format_integer(n);
     }
 
     // Very small numbers (absolute value < 1e-6) use exponential notation
@@ -130,27 +130,37 @@ pub fn number_to_string(n: f64) -> String {
     }
 }
 
+/// Format an integral number below 1e21 without decimal point: the shortest digits
+/// that round-trip, followed by zeros (123456789012345680000, not ...683968)
+fn format_integer(n: f64) -> String {
+    // `{:e}` prints the shortest round-trip digits, e.g. "1.2345678901234568e20"
+    let s = format!("{:e}", n.abs());
+    let (mantissa, exponent) = s.split_once('e').unwrap_or((s.as_str(), "0"));
+    let exponent: usize = exponent.parse().unwrap_or(0);
+    let digits: String = mantissa.chars().filter(|c| *c != '.').collect();
+
+    let mut out = String::with_capacity(exponent + 2);
+    if n < 0.0 {
+        out.push('-');
+    }
+    out.push_str(&digits);
+    // An integer has at most exponent + 1 digits before the point
+    for _ in digits.len()..=exponent {
+        out.push('0');
+    }
+    out
+}
+
 /// Format a number in exponential notation matching JavaScript's output
 fn format_exponential(n: f64) -> String {
-    // Get the exponent
-    let abs_n = n.abs();
-    let exponent = math::floor(math::log10(abs_n)) as i32;
-    let mantissa = n / math::powi(10_f64, exponent);
-
-    // Format mantissa - remove trailing zeros after decimal point
-    let mantissa_str = if math::trunc(mantissa) == mantissa {
-        format!("{:.0}", mantissa)
-    } else {
-        let s = format!("{}", mantissa);
-        // Remove trailing zeros but keep at least one digit after decimal
-        s.trim_end_matches('0').to_string()
-    };
-
-    // Format exponent with sign
-    if exponent >= 0 {
-        format!("{}e+{}", mantissa_str, exponent)
-    } else {
-        format!("{}e{}", mantissa_str, exponent)
+    // `{:e}` prints the shortest digits that round-trip ("1e100", "1.2345e-7",
+    // "5e-324"); ECMAScript writes the sign of a non-negative exponent
+    let s = format!("{:e}", n);
+    match s.split_once('e') {
+        Some((mantissa, exponent)) if !exponent.starts_with('-') => {
+            format!("{}e+{}", mantissa, exponent)
+        }
+        _ => s,
     }
 }
 
